@@ -59,6 +59,7 @@ class Cube:
     group: str = ""  # evidence grouping (e.g. the pass / site / kernel name)
     allow_empty: bool = False  # the cube fixes a prefix of choices that may be infeasible (nothing to explore is then fine)
     max_paths: int = 10**9
+    budget_cut: bool = False  # set by the runner when the check's wall budget shortened this cube's timeout
 
 
 @dataclass
@@ -138,16 +139,28 @@ def _jsonable(v):
         return repr(v)
 
 
-def run_cubes(modname: str, tier: str, spec: CheckSpec, seed: int, nproc: int) -> List[dict]:
+def run_cubes(modname: str, tier: str, spec: CheckSpec, seed: int, nproc: int, budget: float = 0.0) -> List[dict]:
+    """budget > 0: wall-clock budget for the whole check.  Each cube gets, when it starts, at most its fair share of
+    what is left (remaining wall time x workers / cubes not yet started); cubes that exhaust early leave their share to
+    the later ones.  A cube cut short this way is reported as not exhausted (bounded search), never as confirmed."""
+    import dataclasses
+
     ctx = mp.get_context("fork")
     pending = list(range(len(spec.cubes)))
     # longest first
     pending.sort(key=lambda i: -spec.cubes[i].timeout)
     running: Dict[int, Any] = {}
     results: Dict[int, dict] = {}
+    t_start = time.time()
     while pending or running:
         while pending and len(running) < nproc:
             i = pending.pop(0)
+            if budget > 0:
+                left = max(0.0, budget - (time.time() - t_start))
+                share = max(20.0, left * nproc / (len(pending) + 1))
+                if share < spec.cubes[i].timeout:
+                    spec.cubes[i] = dataclasses.replace(spec.cubes[i], timeout=round(share, 1))
+                    spec.cubes[i].budget_cut = True
             pc, cc = ctx.Pipe(duplex=False)
             p = ctx.Process(target=_cube_worker, args=(spec, spec.cubes[i], seed, cc), daemon=True)
             p.start()
@@ -243,6 +256,8 @@ def main(argv=None) -> int:
     ap.add_argument("--replay", default=None)
     ap.add_argument("--jobs", type=int, default=int(os.environ.get("VERIF_JOBS", "16")))
     ap.add_argument("--only", default=None, help="substring filter on cube names (debugging; evidence not written)")
+    ap.add_argument("--budget", type=float, default=None,
+                    help="wall-clock budget in seconds for the cube phase (default: none for quick, $VERIF_BUDGET or 1800 for thorough)")
     a = ap.parse_args(argv)
     pid = a.prop.upper()
     if pid not in HARNESS:
@@ -273,7 +288,8 @@ def main(argv=None) -> int:
     if a.only:
         keep = [i for i, c in enumerate(spec.cubes) if a.only in c.name]
         spec.cubes[:] = [spec.cubes[i] for i in keep]
-    results = run_cubes(modname, a.tier, spec, seed, a.jobs)
+    budget = a.budget if a.budget is not None else (float(os.environ.get("VERIF_BUDGET", "1800")) if a.tier == "thorough" else 0.0)
+    results = run_cubes(modname, a.tier, spec, seed, a.jobs, budget)
 
     known = load_known()
     known_sigs = {(k["property"], k["signature"]): k for k in known.get("findings", [])}
@@ -424,9 +440,11 @@ def main(argv=None) -> int:
             "cubes": [
                 {"cube": c.name, "group": c.group, "paths": r["paths"], "held": r["held"], "ignored": r["ignored"],
                  "unknown": r["unknown"], "exhausted": r["exhausted"], "confirmed": r.get("confirmed", False),
-                 "candidates": len(r["violations"]), "cpu_s": r["cpu_s"], "stop": r["stop_reason"]}
+                 "candidates": len(r["violations"]), "cpu_s": r["cpu_s"], "stop": r["stop_reason"],
+                 "timeout_cpu_s": c.timeout, "cut_by_wall_budget": c.budget_cut}
                 for c, r in checks
             ],
+            "wall_budget_s": budget or None,
             "cubes_total": len(checks),
             "cubes_confirmed": sum(1 for _, r in checks if r.get("confirmed")),
             "reachability_twins": twin_results,
